@@ -1,6 +1,18 @@
 """C02 — a 'safe' or 'unreachable' assertion verdict is never wrong."""
 import os, re, random, vlib, cfgprog, bwdcommon, C02_inter
 
+# forward+backward: hand-picked cases aimed at the dominance-based discharge
+FB_EXTRA = [
+    # the backward refinement proves what the forward analysis cannot: y := x; assume(x <= 0); assert(y <= 0)
+    "cfg 2 2 1 mode=error fwd=1 delay=1 desc=1 fb=1 refined=0 maxref=5 nasserts=1 | B 0 assign 1 E 1 1 0 0 | B 1 assume C le E 1 1 0 0 ; assert C le E 1 1 1 0 1 | E 0 1",
+    "cfg 2 2 1 mode=error fwd=1 delay=1 desc=1 fb=1 refined=1 maxref=0 nasserts=1 | B 0 assign 1 E 1 1 0 0 | B 1 assume C le E 1 1 0 0 ; assert C le E 1 1 1 0 1 | E 0 1",
+    # the same assertion in the entry block itself (not strictly dominated: stays a warning) and behind a diamond
+    "cfg 1 2 0 mode=error fwd=1 delay=1 desc=1 fb=1 refined=0 maxref=5 nasserts=1 | B 0 assign 1 E 1 1 0 0 ; assume C le E 1 1 0 0 ; assert C le E 1 1 1 0 1 | E",
+    "cfg 6 2 5 mode=error fwd=1 delay=1 desc=1 fb=1 refined=0 maxref=2 nasserts=2 | B 0 | B 1 assign 1 E 1 1 0 0 | B 2 assume C le E 1 1 0 0 | B 3 assert C le E 1 1 1 0 1 | B 4 assert C le E 1 1 0 -100 2 | B 5 | E 0 1 0 4 1 2 2 3 3 5 4 5",
+    # entry block with a predecessor that is unreachable from it; assertion after a loop
+    "cfg 5 2 3 mode=error fwd=1 delay=1 desc=1 fb=1 refined=0 maxref=5 nasserts=1 | B 0 assign 1 E 1 1 0 0 | B 1 | B 2 arith add 0 0 k 0 | B 3 assume C le E 1 1 0 0 ; assert C le E 1 1 1 0 1 | B 4 assign 0 E 0 1 | E 0 1 1 2 2 1 1 3 4 0",
+]
+
 def run(rep, tier, seed):
     rep.cov["trusted_base"] = [
         "Coq 8.16.1 kernel (coqc); no native_compute (vm_compute in one Example)",
@@ -20,8 +32,19 @@ def run(rep, tier, seed):
                     nontrivial=cfgprog.nontrivial_verdicts, key=lambda l: "program")
     # verdicts of the checker interleaved with the inter-procedural analyses: oracle only
     C02_inter.streams(rep, tier, seed)
-    # forward+backward analyzer: oracle only
-    lines2 = bwdcommon.gen(seed + 22, 200 if tier == "quick" else 6000, fb=True)
+    # forward+backward analyzer: correspondence with the Coq mirror Ana/FwdBwd.v (theorem
+    # C02_forward_backward_verdicts_sound applies to what the mirror prints) + concrete oracle
+    rep.assumptions = [a.replace("forward+backward (refinement loop, dominance-based discharge) and inter-procedural verdicts",
+                                 "inter-procedural verdicts") for a in rep.assumptions]
+    rep.assumptions += [
+        "forward+backward analyzer: the theorem is about the mirror model of intra_forward_backward_analyzer::run + the checker with its proved set "
+        "(interval domain, empty initial assumption map, analysis started at the CFG entry, statements of the backward fragment of C11); the "
+        "verdicts of the implementation are compared with the mirror's on every generated program (all of them: also the skipped-refinement cases)",
+        "forward+backward with use_refined_invariants: only 'safe' verdicts are claimed ('unreachable' is refuted in Coq: known finding)"]
+    rep.cov["trusted_base"].append("ocaml/fwditv_drv.ml --fb (forward+backward mirror: refinement loop, dominance, checker with proved set)")
+    rep.cov["rule"] = rep.cov["rule"].replace("forward+backward analyzer verdicts checked by the concrete oracle",
+                                              "forward+backward analyzer verdicts compared with the mirror model and checked by the concrete oracle")
+    lines2 = FB_EXTRA + bwdcommon.gen(seed + 22, 200 if tier == "quick" else 6000, fb=True)
     hexe, err = vlib.build_harness("bwditv")
     if err:
         rep.violation("fb-build", err, False); return
@@ -29,15 +52,34 @@ def run(rep, tier, seed):
     cf = os.path.join(d, "fb-verdicts.cases")
     open(cf, "w").write("\n".join(lines2) + "\n")
     impl = vlib.run_harness_resilient(hexe, [], cf, len(lines2), 900)
+    # the mirror: extraction of Ana/FwdBwd.v, driver mode --fb (same line format as the harness)
+    model = None
+    rc, out = vlib.coq_make(["Extract/ExtractFwditv.vo"])
+    dexe, derr = (None, "Extract/ExtractFwditv.v no longer compiles:\n" + out[-2000:]) if rc != 0 else vlib.build_driver("fwditv")
+    if derr:
+        rep.violation("fb-driver", "model driver fwditv: %s" % derr, False)
+    else:
+        rc, out = vlib.sh([dexe, "--fb", cf], timeout=900)
+        model = {}
+        for ml in out.split("\n"):
+            if ml.startswith("R "):
+                sp = ml.split(" ", 2)
+                model[int(sp[1])] = sp[2] if len(sp) > 2 else ""
+        if rc != 0 or len(model) != len(lines2):
+            rep.violation("fb-model", "model driver failed on the forward+backward stream (rc=%s, %d/%d answers)\n%s"
+                          % (rc, len(model), len(lines2), out[-1500:]), False)
+            model = None
+    checks_of = lambda ans: ans.split(" ; checks=", 1)[1].strip() if " ; checks=" in ans else ans.strip()
     rng = random.Random(seed)
-    hits = 0; nt = 0
+    hits = 0; nt = 0; mism = 0
     known = [k for k in vlib.load_known().get("findings", [])
              if k.get("property") == "C02" and k.get("stream") == "fwd-bwd-verdicts-oracle"]
     nknown = {}
     for i, l in enumerate(lines2):
         a = impl.get(i, "MISSING")
         w = cfgprog.oracle_verdicts(l, a, rng)
-        if cfgprog.nontrivial_verdicts(l, a):
+        differs = model is not None and checks_of(a) != checks_of(model[i])
+        if cfgprog.nontrivial_verdicts(l, a) and not differs:
             nt += 1
         if w:
             kn = [k for k in known if re.search(k["line_regex"], l) and re.search(k.get("witness_regex", ""), w)]
@@ -45,10 +87,24 @@ def run(rep, tier, seed):
                 nknown[kn[0]["what"]] = nknown.get(kn[0]["what"], 0) + 1
                 if nknown[kn[0]["what"]] == 1:
                     rep.known_finding("%s [first of this class: %s]" % (kn[0]["what"], w[:400]))
-                continue
+                w = None
+        if w:
             hits += 1
-            if hits <= 2:
-                rep.violation("fb-verdicts-%d" % i, "FAILING INPUT: " + w + "\ninput: " + l + "\nimplementation: " + a, True)
+        if differs:
+            mism += 1
+        if (w and hits <= 2) or (differs and mism <= 2):
+            text = "stream=fwd-bwd-verdicts-oracle case=%d\ninput: %s\nimplementation: %s\n" % (i, l, a)
+            if model is not None:
+                text += "model: %s\n" % model[i]
+            if w:
+                text = "FAILING INPUT (property oracle on the implementation's answer): " + w + "\n" + text
+            else:
+                text = ("correspondence broken: the verdicts of the forward+backward analyzer no longer agree with the Coq model Ana/FwdBwd.v "
+                        "(theorem C02_forward_backward_verdicts_sound of Properties_C02.v no longer applies to this code); the oracle found no "
+                        "concrete counterexample on this input\n") + text
+            rep.violation("fb-verdicts-%d" % i, text, bool(w))
     rep.cov["streams"]["fwd-bwd-verdicts-oracle"] = {"cases": len(lines2), "oracle_violations": hits, "distinct_nontrivial": nt,
-                                                  "known_finding_hits": sum(nknown.values())}
+                                                  "known_finding_hits": sum(nknown.values()),
+                                                  "compared_with_model": 0 if model is None else len(lines2), "mismatches": mism,
+                                                  "compared": "the ' ; checks=' verdict suffix, every configuration of the generator (refined=0/1, maxref, dead-end assertion blocks)"}
     rep.cov["evaluations"] += len(lines2)
